@@ -37,3 +37,20 @@ w("C03", {
  "thorough": c03([(2, 0, 0, "true", 2), (2, 1, 3, "false", 2), (2, 4, 1, "true", 2), (3, 0, 0, "true", 1), (3, 1, 3, "true", 1)]),
  "outside": ["more than 3 outstanding requests, more than 2 preemptions", "real TCP", "Tversion with a tag other than NOTAG (protocol precondition)"],
  "assumptions": [SCHED, "reply content oracle: independent encoder harness/ref_wire.go"]})
+
+# ---------------- C07 ----------------
+def c07(combos, P):
+    F = KIT + ["c07"]
+    runs = []
+    names = {0: "Twalk to a new fid", 1: "Topen", 2: "Tread", 3: "Tattach", 4: "Tclunk"}
+    for (t, fop, var, hold, saved) in combos:
+        reach = ["unknown-tag"] if var == 3 else []
+        runs.append({"harness": "vxH07", "args": [str(t), str(fop), str(var), "true" if hold else "false", "true" if saved else "false"], "files": F, "preempt": P, "race": True,
+                     "reach": reach, "timeout_s": 1500,
+                     "bounds": f"target {names[t]}; FlushOp={['none','no-op','cancels requests it was handed'][fop]}; variant={['one flush','two flushes of the target','flush of the flush','unknown old tag'][var]}; target held inside the implementation={hold}; implementation answers later (saved)={saved}; same/separate segments; all schedules of receiver, sender and workers with <= {P} preemptions"})
+    return runs
+Q7 = [(0,0,0,False,False), (1,0,0,False,True), (2,1,0,True,False), (0,2,0,True,False), (3,0,0,False,False), (4,0,0,True,False), (0,0,3,False,False), (2,0,2,True,False)]
+T7 = [(t,f,v,h,s) for t in range(5) for f in (0,2) for v in (0,1,2) for h in (False,True) for s in (False,) if not (f == 2 and not h)] + [(1,0,0,False,True), (2,1,0,True,True), (0,0,3,False,False)]
+w("C07", {"quick": c07(Q7, 1), "thorough": c07(T7, 1) + c07([(0,0,0,False,False), (2,2,0,True,False)], 2),
+ "outside": ["flushes inside shared-tag groups", "a target that never returns from the implementation (the harness always releases it eventually)", "more than 2 preemptions"],
+ "assumptions": [SCHED, "a FlushOp implementation calls req.Flush() only for requests it has been handed (it synchronises with its own workers)", "an implementation that answers a saved request later hands it over through a synchronising channel"]})
